@@ -80,7 +80,7 @@ func (s *sched) release(proc string) bool {
 
 var markOf = map[string]string{
 	"G0": "callout.grant", "G1r": "perm.add.refresh", "G1i": "perm.add.insert", "G2": "callout.permcreated",
-	"B0": "chan.add.lookup", "B1": "chan.add.apply", "B2r": "perm.add.refresh", "B2i": "perm.add.insert",
+	"B0": "chan.add.lookup", "B0a": "chan.get.number", "B0b": "chan.get.addr", "B1": "chan.add.apply", "B2r": "perm.add.refresh", "B2i": "perm.add.insert",
 	"B3": "callout.permcreated", "B4": "callout.chancreated",
 	"E0:TP": "perm.expire", "E0:TC": "chan.expire", "E0:TA": "alloc.expire", "E1": "alloc.delete.close", "E2": "callout.allocdeleted",
 }
